@@ -170,6 +170,10 @@ def go_pascal(name: str) -> str:
     return "".join(w[:1].upper() + w[1:] for w in name.split("_"))
 
 
+def go_struct_name(m) -> str:
+    return "".join(G.scope_names(m))
+
+
 def go_leaves(t, path: str, out: List[Tuple[str, Any]]) -> None:
     if isinstance(t, G.TArray):
         for k in range(t.cap):
@@ -321,6 +325,34 @@ def check_opmode(run: common.Run, drv: common.Driver, rng: random.Random, sc: R.
             reqs.append({"op": "spec.encode", "ty": G.msg_ty_json(m), "val": G.msg_val_json(m, v)})
             reqs.append({"op": "op.encode", "dialect": "cLE", "ty": G.msg_ty_json(m), "val": G.msg_val_json(m, v)})
         ans = drv.batch(reqs)
+        # the generated Go, through the interpreter of its statement subset (tools/gointerp.py; no Go toolchain here)
+        if not overdriven:
+            from . import gointerp
+
+            bodies = {id(m): go_function_bodies(go, go_struct_name(m)) for m in msgs}
+            for j, (m, v) in enumerate(jobs):
+                spec = ans[2 * j]
+                gb = bodies[id(m)]
+                if "enc" not in gb or "dec" not in gb or "ok" not in spec:
+                    continue
+                rep = {"input": {"files": {"main.bitproto": text}, "message": G.c_name(m), "ty": G.msg_ty_json(m),
+                                 "val": G.msg_val_json(m, v), "config": "go -O (interpreted)"}}
+                try:
+                    got = gointerp.go_encode(s, m, gb["enc"], v).hex()
+                    dv = gointerp.go_decode(s, m, gb["dec"], bytes.fromhex(spec["ok"]))
+                except gointerp.Unsupported as e:
+                    run.count("go_interp:unsupported")
+                    run.notes.setdefault("go_interp_unsupported", []).append(str(e)[:160])
+                    continue
+                except IndexError as e:
+                    run.violation(dict(rep, kind="impl-vs-spec", observed_impl=f"index out of range: {e}", expected_by_spec=spec))
+                    continue
+                run.evaluated()
+                run.count("exec:go-O-interpreted")
+                if got != spec["ok"]:
+                    run.violation(dict(rep, kind="impl-vs-spec", expected_by_spec=spec, observed_impl={"bytes": got}))
+                elif dv != v:
+                    run.violation(dict(rep, kind="impl-vs-spec", expected_by_spec={"decode": v}, observed_impl={"decode": dv}))
         for cfg in exec_configs:
             try:
                 mod = C.CModule(sc, s, text, base, cflags=cfg.get("cflags", ("-O2",)), optimize=True, endian=cfg["endian"])
